@@ -55,6 +55,14 @@ func Compare(lv, rv interface{}) int {
 }
 
 func compareNumbers(lv, rv interface{}) int {
+	// pairs involving a decimal are compared exactly, including non-finite
+	// values (NaN lowest, then -Infinity, finite numbers, +Infinity)
+	_, ld := lv.(primitive.Decimal128)
+	_, rd := rv.(primitive.Decimal128)
+	if ld || rd {
+		return compareExtended(lv, rv)
+	}
+
 	switch l := lv.(type) {
 	case float64:
 		switch r := rv.(type) {
@@ -106,6 +114,59 @@ func compareNumbers(lv, rv interface{}) int {
 	}
 
 	panic("bsonkit: unreachable")
+}
+
+// extendedNumber classifies a number as NaN (rank 0), -Infinity (rank 1),
+// finite (rank 2, with its exact decimal value) or +Infinity (rank 3).
+func extendedNumber(v interface{}) (int, decimal.Decimal) {
+	switch n := v.(type) {
+	case int32:
+		return 2, decimal.NewFromInt32(n)
+	case int64:
+		return 2, decimal.NewFromInt(n)
+	case float64:
+		if math.IsNaN(n) {
+			return 0, decimal.Decimal{}
+		} else if math.IsInf(n, -1) {
+			return 1, decimal.Decimal{}
+		} else if math.IsInf(n, 1) {
+			return 3, decimal.Decimal{}
+		}
+		// convert the exact binary value (not its shortest decimal rendering)
+		return 2, decimal.NewFromFloatWithExponent(n, -1074)
+	case primitive.Decimal128:
+		if n.IsNaN() {
+			return 0, decimal.Decimal{}
+		} else if n.IsInf() < 0 {
+			return 1, decimal.Decimal{}
+		} else if n.IsInf() > 0 {
+			return 3, decimal.Decimal{}
+		}
+		return 2, safeD128ToDec(n)
+	}
+
+	panic("bsonkit: unreachable")
+}
+
+func compareExtended(lv, rv interface{}) int {
+	// get ranks and values
+	lr, ld := extendedNumber(lv)
+	rr, rd := extendedNumber(rv)
+
+	// compare ranks
+	if lr != rr {
+		if lr < rr {
+			return -1
+		}
+		return 1
+	}
+
+	// compare finite values
+	if lr == 2 {
+		return ld.Cmp(rd)
+	}
+
+	return 0
 }
 
 func compareStrings(lv, rv interface{}) int {
